@@ -20,7 +20,25 @@ pub struct Op {
 }
 
 impl Operation for Op {
-    type Output = u64;
+    type Output = Val;
+}
+
+/// The value a shell answers with. Deserializing it calls a harness hook, which gives the
+/// schedule controller a point *inside* response decoding (the bridge decodes responses
+/// while it holds the registry entry).
+#[derive(Serialize, Clone, Copy, Debug, PartialEq, Eq)]
+#[serde(transparent)]
+pub struct Val(pub u64);
+
+pub static DESERIALIZE_HOOK: std::sync::OnceLock<fn()> = std::sync::OnceLock::new();
+
+impl<'de> Deserialize<'de> for Val {
+    fn deserialize<D: serde::Deserializer<'de>>(d: D) -> Result<Self, D::Error> {
+        if let Some(h) = DESERIALIZE_HOOK.get() {
+            h();
+        }
+        u64::deserialize(d).map(Val)
+    }
 }
 
 #[derive(Serialize, Deserialize, Clone, Debug, PartialEq, Eq)]
